@@ -54,6 +54,10 @@ FUNCS = {
                       defined_in='C10Surf.lean', targets=['sum_rect', 'csum_rect', 'haar_x', 'haar_y']),
     'flat_to_pos': dict(tie=T + 'FlatToPos', theorems=['Mahotas.cscalar_flat_to_pos_eq_model'],
                         words=['flatToPos'], defined_in='C08.lean', targets=['flat_to_pos']),
+    'spline_coeff': dict(tie=T + 'Spline', theorems=['Mahotas.cscalar_spline_coeff_eq_model'],
+                         words=['splineCoeff'], defined_in='C18.lean', targets=['spline_coeff']),
+    'rank_currank': dict(tie=T + 'CurRank', theorems=['Mahotas.cscalar_rank_currank_eq_model'],
+                         words=['curRankG'], defined_in='C07.lean', targets=['rank_currank']),
     'find2d_marks': dict(tie=T + 'Find2d', theorems=['Mahotas.cscalar_find2d_marks_eq_model'],
                          words=['findMarks', 'matchesAt'], defined_in='C07.lean', targets=['find2d_marks']),
     'find2d_accesses': dict(tie=T + 'Find2dAcc', theorems=['Mahotas.cscalar_find2d_accesses_eq_model'],
@@ -117,6 +121,7 @@ PRELUDE = r'''
 #include <algorithm>
 #include <cstdint>
 #include <cstdlib>
+#include <cmath>
 typedef long npy_intp;
 struct gil_release { };
 namespace numpy {
@@ -205,6 +210,12 @@ def _unit(srcs: dict) -> str:
         s.append('extern "C" unsigned long cs_roll_right(unsigned long v, long points) { return roll_right((npy_uint32)v, (int)points); }')
         if 'lbp_map' in have:
             s.append('extern "C" unsigned long cs_lbp_map(unsigned long v, long points) { return map((npy_uint32)v, (int)points); }')
+    if 'spline_coeff' in have:
+        # the selected `switch (order)` statement as it stands, around one slot of `result`
+        s.append('extern "C" double cs_spline_coeff(long order_, double y, double r0) { typedef double FT; const int order = (int)order_; '
+                 'double result[1] = { r0 }; const int hh = 0; ' + srcs['spline_coeff']['slice'] + ' return result[0]; }')
+    if 'rank_currank' in have:
+        s.append('extern "C" long cs_rank_currank(long n, long N2, long rank) { ' + srcs['rank_currank']['slice'] + ' return currank; }')
     if 'find2d_marks' in have or 'find2d_accesses' in have:
         # the whole kernel, on arrays whose `at(y, x)` logs (array id, y, x) and stays inside the buffer
         s.append('static long* f2_log; static long f2_n, f2_cap;')
@@ -250,7 +261,8 @@ def _unit(srcs: dict) -> str:
 # a finding: translation and tie are checked independently of it, the differential only validates the translator
 GROUPS = [['fix_offset'], ['t_abs'], ['subm_elem'], ['margin_of'], ['erode_sub', 'erode_sub_bool'], ['dilate_add', 'dilate_add_bool'],
           ['isLeft'], ['forward_cmp'], ['reverse_cmp'], ['at_flat'], ['pos_to_flat'], ['flat_to_pos'],
-          ['sum_rect', 'csum_rect', 'haar_x', 'haar_y'], ['roll_right', 'lbp_map'], ['find2d_marks', 'find2d_accesses']]
+          ['sum_rect', 'csum_rect', 'haar_x', 'haar_y'], ['roll_right', 'lbp_map'], ['find2d_marks', 'find2d_accesses'],
+          ['spline_coeff'], ['rank_currank']]
 _LIB = {}
 _SRCS = None
 
@@ -357,6 +369,14 @@ def _real_rows(case):
         f = getattr(lib, 'cs_' + fn)
         f.restype, f.argtypes = ctypes.c_ulong, [ctypes.c_ulong, ctypes.c_long]
         out = [str(f(v, pts)) for v, pts in case['rows']]
+    elif fn == 'spline_coeff':
+        f = lib.cs_spline_coeff
+        f.restype, f.argtypes = ctypes.c_double, [ctypes.c_long, ctypes.c_double, ctypes.c_double]
+        out = [str(core.f2bits(f(o, core.bits2f(y), core.bits2f(r0)))) for o, y, r0 in case['rows']]
+    elif fn == 'rank_currank':
+        f = lib.cs_rank_currank
+        f.restype, f.argtypes = ctypes.c_long, [ctypes.c_long] * 3
+        out = [str(f(*row)) for row in case['rows']]
     elif fn in ('find2d_marks', 'find2d_accesses'):
         f = lib.cs_find2d
         f.restype = ctypes.c_long
@@ -624,7 +644,33 @@ def _cases_find2d(fn, rng, tier):
     return [dict(fn=fn, rows=ch, src='random') for ch in _chunks(rows, 400)]
 
 
+def _cases_spline(rng, tier):
+    """orders 0 … 7 (0, 6, 7 have no case: `result[hh]` keeps its value) x distances at, one ulp below and one ulp above every
+    threshold of the piecewise polynomials, small multiples of 1/8, and random distances in [0, 4)"""
+    import math
+    ys = [0.0]
+    for t in (0.5, 1.0, 1.5, 2.0, 2.5, 3.0):
+        ys += [t, math.nextafter(t, 0.0), math.nextafter(t, 9.0)]
+    ys += [k / 8 for k in range(0, 33)]
+    for _ in range(dict(quick=300, thorough=6000, search=2000)[tier]):
+        ys.append(rng.random() * 4)
+        ys.append(rng.choice([0.5, 1.0, 1.5, 2.0, 2.5, 3.0]) + (rng.random() - 0.5) * 2.0 ** -rng.randint(10, 50))
+    rows = [[o, core.f2bits(y), core.f2bits(rng.choice([0.0, 7.25, -1.5]))] for o in range(0, 8) for y in ys]
+    return [dict(fn='spline_coeff', rows=ch, src='boundary') for ch in _chunks(rows, 2000)]
+
+
+def _cases_currank(rng, tier):
+    """every (n, N2, rank) with rank < N2 <= 12, n <= N2; random footprints up to 2^20 samples (n * rank below 2^53)"""
+    rows = [[n, n2, r] for n2 in range(1, 13) for n in range(0, n2 + 1) for r in range(0, n2)]
+    for _ in range(dict(quick=1000, thorough=20000, search=6000)[tier]):
+        n2 = rng.choice([rng.randint(1, 200), rng.randint(1, 2 ** 20)])
+        rows.append([rng.randint(0, n2), n2, rng.randint(0, n2 - 1)])
+    return [dict(fn='rank_currank', rows=ch, src='boundary') for ch in _chunks(rows, 2000)]
+
+
 GENERATORS = {
+    'spline_coeff': _cases_spline,
+    'rank_currank': _cases_currank,
     'find2d_marks': lambda rng, tier: _cases_find2d('find2d_marks', rng, tier),
     'find2d_accesses': lambda rng, tier: _cases_find2d('find2d_accesses', rng, tier),
     'flat_to_pos': _cases_flat_to_pos,
